@@ -30,16 +30,18 @@ namespace {
 
 struct Orig {
     int nrec;               // 1 or 2 recipients
-    int shape;              // 0: mid payment, change expected; 1: whole spendable balance with subtract-fee (no change); 2: preselected P2WPKH coin only, mid payment (bump must shrink the change or add inputs)
+    int shape;              // 0: mid payment, change expected; 1: whole spendable balance with subtract-fee (no change); 2: preselected P2WPKH coin only, mid payment (the bump shrinks the change);
+                            // 3: preselected P2WPKH coin only, paying all but 2000 sat of it (tiny change: the bump must add inputs or drop the change)
     bool rbf;
     CAmount feerate;        // sat/kvB
-    std::string Str() const { return strprintf("orig{recipients=%d shape=%d rbf=%d feerate=%d}", nrec, shape, (int)rbf, feerate); }
+    bool foreign{false};    // funded by the wallet but also spending a stranger's coin (only for the bump option u:foreign)
+    std::string Str() const { return strprintf("orig{recipients=%d shape=%d rbf=%d feerate=%d%s}", nrec, shape, (int)rbf, feerate, foreign ? " foreign-input" : ""); }
 };
 // bump options
-//  "auto" no feerate | "rate:+<d>" original feerate + d sat/kvB | "rate:x10" | "rate:max" (above the maximum fee) | "outputs" new
+//  "auto" no feerate | "rate:+<d>" original feerate + d sat/kvB | "rate:x10" | "rate:x20" | "rate:max" (above the maximum fee) | "outputs" new
 //  outputs | "chgidx" original_change_index = the real change | "reduce" original_change_index = recipient 0 |
 //  unbumpable: "u:confirmed" "u:replaced" "u:walletchild" "u:poolchild" "u:foreign" "u:unknown" "u:both" "u:range"
-struct Spec { unsigned mask; Orig o; std::string bump; std::string Str() const { return strprintf("coin mask %u | %s | bump=%s", mask, o.Str(), bump); } };
+struct Spec { unsigned mask; Orig o; std::string bump; std::vector<std::string> bumps; std::string Str() const { return strprintf("coin mask %u | %s | bump=%s", mask, o.Str(), bump); } };
 
 std::string Snapshot(wallet::CWallet& w)
 {
@@ -64,11 +66,47 @@ struct Job {
     fp::Out& out;
     Spec sp;
     World::Prepared P;
-    std::map<CScript, OutputType> internal;
     std::vector<CTxDestination> dests;
     CKey rk[3];
+    const std::map<CScript, OutputType>& internal;
+    // the original
+    CTransactionRef orig;
+    CAmount orig_fee{0};
+    std::optional<unsigned> orig_change_pos;
+    Txid oid;
+    int64_t orig_vsize{0};
+    RefView v;
 
-    Job(World& world, fp::Out& o, const Spec& s) : w(world), out(o), sp(s) {}
+    Job(World& world, fp::Out& o, const Spec& s, const std::map<CScript, OutputType>& internal_scripts) : w(world), out(o), sp(s), internal(internal_scripts) {}
+
+    // every bump option runs in its own fork of the process that holds the accepted original
+    void Run()
+    {
+        if (!Setup()) return;
+        for (auto& b : sp.bumps) {
+            out.send_counts();
+            out.flush();
+            fflush(stdout);
+            pid_t p = fork();
+            if (p < 0) throw std::runtime_error("fork failed");
+            if (p == 0) {
+                sp.bump = b;
+                out.count("cases");
+                try { RunOption(); }
+                catch (const std::exception& e) { out.count("harness_error"); out.sample("HARNESS-ERROR " + sp.Str() + ": " + e.what()); }
+                out.send_counts();
+                out.flush();
+                fflush(stdout);
+                _exit(0);
+            }
+            int st = 0;
+            while (waitpid(p, &st, 0) < 0 && errno == EINTR) {}
+            if (!WIFEXITED(st) || WEXITSTATUS(st) != 0) {
+                sp.bump = b;
+                Viol("process-died:" + b, "the process running this bump died abnormally (assert / abort / crash in the code under test)");
+            }
+        }
+    }
 
     void Viol(const std::string& key, const std::string& what, const std::string& extra = "")
     {
@@ -89,9 +127,14 @@ struct Job {
             if (sp.o.nrec == 1) vec.push_back({dests[0], T, true});
             else { vec.push_back({dests[0], T / 2, true}); vec.push_back({dests[1], T - T / 2, true}); }
         } else {
-            vec.push_back({dests[0], MID, false});
+            CAmount first = MID;
+            if (sp.o.shape == 3) {
+                if (!P.op.count(World::K_P2WPKH)) return nullptr;
+                first = P.prevouts.at(P.op.at(World::K_P2WPKH)).nValue - 2000 - (sp.o.nrec == 2 ? MID / 2 : 0);
+            }
+            vec.push_back({dests[0], first, false});
             if (sp.o.nrec == 2) vec.push_back({dests[1], MID / 2, false});
-            if (sp.o.shape == 2) {
+            if (sp.o.shape >= 2) {
                 if (!P.op.count(World::K_P2WPKH)) return nullptr;
                 cc.Select(P.op.at(World::K_P2WPKH));
                 cc.m_allow_other_inputs = false;
@@ -104,28 +147,22 @@ struct Job {
         return res->tx;
     }
 
-    void Run()
+    bool Setup()
     {
         SeedRandomStateForTest(SeedRand::ZEROS);
         P = w.PrepareCoins(sp.mask);
-        RefView v = w.View();
-        internal = InternalScripts(w.W(), 400);
+        v = w.View();
         for (int i = 0; i < 3; i++) { std::vector<unsigned char> r(32, 0x31 + i); rk[i].Set(r.begin(), r.end(), true); }
         dests = {WitnessV0KeyHash(rk[0].GetPubKey()), PKHash(rk[1].GetPubKey()), WitnessV1Taproot(XOnlyPubKey(rk[2].GetPubKey()))};
-        const bool unbumpable = sp.bump.rfind("u:", 0) == 0;
-
         // ---- the original
-        CAmount orig_fee = 0;
-        std::optional<unsigned> orig_change_pos;
-        CTransactionRef orig;
-        if (sp.bump == "u:foreign") {
+        if (sp.o.foreign) {
             // the wallet funds a transaction that also spends a stranger's coin; both sign
             CCoinControl cc;
             cc.m_feerate = CFeeRate(sp.o.feerate);
             cc.Select(P.ext_op).SetTxOut(P.ext_out);
             cc.m_external_provider.pubkeys.emplace(P.ext_key.GetPubKey().GetID(), P.ext_key.GetPubKey());
             auto res = wallet::CreateTransaction(w.W(), {{dests[0], 45000000, false}}, std::nullopt, cc, /*sign=*/false);
-            if (!res) { out.count("original_not_creatable"); return; }
+            if (!res) { out.count("original_not_creatable"); return false; }
             CMutableTransaction m(*res->tx);
             std::map<COutPoint, Coin> coins;
             for (auto& in : m.vin) coins[in.prevout] = Coin(P.prevouts.at(in.prevout), 1, false);
@@ -134,37 +171,41 @@ struct Job {
             FillableSigningProvider ks;
             ks.AddKey(P.ext_key);
             errs.clear();
-            if (!SignTransaction(m, &ks, coins, {.sighash_type = SIGHASH_ALL}, errs)) { out.count("original_not_creatable"); return; }
+            if (!SignTransaction(m, &ks, coins, {.sighash_type = SIGHASH_ALL}, errs)) { out.count("original_not_creatable"); return false; }
             bool wallet_input = false;
             for (auto& in : m.vin) if (in.prevout != P.ext_op) wallet_input = true;
-            if (!wallet_input) { out.count("original_not_creatable"); return; }
+            if (!wallet_input) { out.count("original_not_creatable"); return false; }
             orig = MakeTransactionRef(m);
             orig_fee = res->fee;
             orig_change_pos = res->change_pos;
         } else {
             orig = MakeOriginal(v, orig_fee, orig_change_pos);
         }
-        if (!orig) { out.count("original_not_creatable"); return; }
-        w.wn->Commit(orig);
+        if (!orig) { out.count("original_not_creatable"); return false; }
+        // (CWallet::CommitTransaction looks every input up in the wallet: a transaction with a stranger's input reaches
+        // the wallet through the mempool notification instead)
+        if (!sp.o.foreign) w.wn->Commit(orig);
         w.Note(orig);
         {
             auto r = w.Submit(orig);
-            if (r.m_result_type != MempoolAcceptResult::ResultType::VALID) { out.count("original_not_accepted"); return; } // C41's subject
+            if (r.m_result_type != MempoolAcceptResult::ResultType::VALID) { out.count("original_not_accepted"); return false; } // C41's subject
         }
         out.count("originals");
-        const Txid oid = orig->GetHash();
-        CAmount in_total = 0;
-        std::set<COutPoint> orig_inputs;
-        for (auto& in : orig->vin) { orig_inputs.insert(in.prevout); in_total += P.prevouts.at(in.prevout).nValue; }
-        const int64_t orig_vsize = (GetTransactionWeight(*orig) + 3) / 4;
+        oid = orig->GetHash();
+        orig_vsize = (GetTransactionWeight(*orig) + 3) / 4;
         // the original's change output by the independent rule: the output paying an internal-descriptor script
         std::optional<unsigned> ref_change;
         for (unsigned i = 0; i < orig->vout.size(); i++) if (IsInternal(orig->vout[i].scriptPubKey)) ref_change = i;
-        if (ref_change != orig_change_pos) { out.count("harness_error"); out.sample("HARNESS-ERROR change position disagrees with the internal-script rule"); return; }
+        if (ref_change != orig_change_pos) { out.count("harness_error"); out.sample("HARNESS-ERROR change position disagrees with the internal-script rule"); return false; }
         // refresh prevouts / view (the original's outputs exist now)
         v = w.View();
         for (uint32_t i = 0; i < orig->vout.size(); i++) P.prevouts[COutPoint(oid, i)] = orig->vout[i];
+        return true;
+    }
 
+    void RunOption()
+    {
+        const bool unbumpable = sp.bump.rfind("u:", 0) == 0;
         // ---- make it unbumpable if the option says so
         Txid target = oid;
         std::vector<CTxOut> new_outputs;
@@ -237,6 +278,7 @@ struct Job {
         CAmount requested = -1;
         if (sp.bump.rfind("rate:+", 0) == 0) requested = CFeeRate(orig_fee, orig_vsize).GetFeePerK() + atoll(sp.bump.c_str() + 6);
         else if (sp.bump == "rate:x10") requested = sp.o.feerate * 10;
+        else if (sp.bump == "rate:x20") requested = sp.o.feerate * 20;
         else if (sp.bump == "rate:max") requested = 500000000;
         if (requested >= 0) bcc.m_feerate = CFeeRate(requested);
         if (sp.bump == "outputs") {
@@ -253,12 +295,11 @@ struct Job {
             while (orig_change_pos && ri == *orig_change_pos) ri++;
             change_index = ri;
         }
-        BumpOnce(oid, bcc, new_outputs, change_index, /*check=*/true, orig, orig_fee, orig_change_pos, requested, &v);
+        BumpOnce(oid, bcc, new_outputs, change_index, /*check=*/true, requested);
     }
 
     // returns true if a replacement was created, committed and accepted
-    bool BumpOnce(const Txid& oid, const CCoinControl& bcc, const std::vector<CTxOut>& new_outputs, std::optional<uint32_t> change_index, bool check,
-                  CTransactionRef orig = nullptr, CAmount orig_fee = 0, std::optional<unsigned> orig_change_pos = std::nullopt, CAmount requested = -1, RefView* v = nullptr)
+    bool BumpOnce(const Txid& oid, const CCoinControl& bcc, const std::vector<CTxOut>& new_outputs, std::optional<uint32_t> change_index, bool check, CAmount requested = -1)
     {
         std::string before = check ? Snapshot(w.W()) : std::string();
         std::vector<bilingual_str> errors;
@@ -302,7 +343,7 @@ struct Job {
             in_total += po->second.nValue;
             if (orig_in.count(in.prevout)) continue;
             bool ok = false;
-            for (auto& c : v->coins_safe) if (c.op == in.prevout && c.depth >= 1) ok = true;
+            for (auto& c : v.coins_safe) if (c.op == in.prevout && c.depth >= 1) ok = true;
             if (!ok) { Viol("extra-input-not-allowed", "replacement adds an input that is not a confirmed spendable wallet coin: " + in.prevout.ToString()); return false; }
             out.count("bump_added_input");
         }
@@ -327,14 +368,17 @@ struct Job {
                 if (it == rest.end()) { Viol(std::string("output-changed:") + (new_outputs.empty() ? "original" : "supplied"), strprintf("a non-change output (%d to %s) is missing or altered in the replacement", k.nValue, HexStr(k.scriptPubKey).substr(0, 20)), EncodeHexTx(tx)); return false; }
                 rest.erase(it);
             }
-            if (rest.size() > 1) { Viol("extra-outputs", strprintf("replacement has %u outputs beyond the kept ones", (unsigned)rest.size()), EncodeHexTx(tx)); return false; }
-            if (rest.size() == 1) {
-                const CTxOut& ch = rest[0];
-                bool ok = flexible ? ch.scriptPubKey == *flexible : IsInternal(ch.scriptPubKey);
-                if (!ok) Viol("change-script", flexible ? "the replacement's change does not reuse the designated change script" : "the replacement's new change does not pay an internal wallet script", EncodeHexTx(tx));
+            // what remains: at most one output to the designated change script and at most one fresh change to an internal
+            // script (the latter only appears next to the former when every original output was designated as change)
+            int n_flex = 0, n_int = 0;
+            for (auto& ch : rest) {
+                if (flexible && ch.scriptPubKey == *flexible) n_flex++;
+                else if (IsInternal(ch.scriptPubKey)) n_int++;
+                else { Viol("change-script", "the replacement has an output that is neither a kept output, the designated change script nor an internal wallet script", EncodeHexTx(tx)); return false; }
                 if (ch.nValue <= 0 || IsDust(ch, w.W().chain().relayDustFee())) Viol("change-dust", "dust change in the replacement");
-                out.count("bump_with_change");
-            } else out.count("bump_without_change");
+            }
+            if (n_flex > 1 || n_int > 1 || (n_flex + n_int > 1 && !keep.empty())) { Viol("extra-outputs", strprintf("replacement has %u outputs beyond the kept ones", (unsigned)rest.size()), EncodeHexTx(tx)); return false; }
+            out.count(rest.empty() ? "bump_without_change" : "bump_with_change");
         }
         // (c) fee rules on the signed replacement
         const int64_t vsize = (GetTransactionWeight(tx) + 3) / 4;
@@ -392,42 +436,52 @@ int main(int argc, char** argv)
     std::vector<unsigned> masks = big ? std::vector<unsigned>{0x0f, 0x4f, 0x01, 0xff, 0x03, 0x41, 0x0c, 0x2f} : std::vector<unsigned>{0x0f, 0x4f, 0x01};
     std::vector<Orig> origs;
     for (int nrec : {1, 2})
-        for (int shape : {0, 1, 2})
+        for (int shape : {0, 1, 2, 3})
             for (bool rbf : {true, false})
                 for (CAmount fr : big ? std::vector<CAmount>{1000, 10000, 2500} : std::vector<CAmount>{1000, 10000}) {
-                    if (!big && !rbf && shape != 0) continue;
-                    if (!big && nrec == 2 && shape == 2) continue;
+                    if (!big && !rbf && !(shape == 0 && nrec == 1 && fr == 1000)) continue;
+                    if (!big && nrec == 2 && (shape >= 2 || fr != 1000)) continue;
+                    if (!big && fr != 1000 && shape != 0) continue;
+                    if (shape == 3 && fr > 2500) continue; // 2000 sat do not pay for 10 sat/vB
                     origs.push_back({nrec, shape, rbf, fr});
                 }
-    std::vector<std::string> bumps{"auto", "rate:+99", "rate:+100", "rate:+5000", "rate:x10", "rate:max", "outputs", "chgidx", "reduce",
+    std::vector<std::string> bumps{"auto", "rate:+99", "rate:+100", "rate:x10", "rate:x20", "rate:max", "outputs", "chgidx", "reduce",
                                    "u:confirmed", "u:replaced", "u:walletchild", "u:poolchild", "u:foreign", "u:unknown", "u:both", "u:range"};
-    if (big) { bumps.push_back("rate:+0"); bumps.push_back("rate:+1000"); }
+    if (big) { bumps.push_back("rate:+0"); bumps.push_back("rate:+1000"); bumps.push_back("rate:+5000"); }
     std::vector<Spec> specs;
-    for (unsigned m : masks) for (auto& o : origs) for (auto& b : bumps) {
-        // the option-only refusals and the foreign-input case do not depend on the original's shape: once per coin set and feerate
-        if ((b == "u:unknown" || b == "u:both" || b == "u:range" || b == "u:foreign") && !(o.nrec == 1 && o.shape == 0 && o.rbf)) continue;
-        specs.push_back({m, o, b});
+    for (unsigned m : masks) {
+        for (auto& o : origs) {
+            Spec sp{m, o, "", {}};
+            for (auto& b : bumps) {
+                // the option-only refusals do not depend on the original's shape: once per coin set and feerate
+                if ((b == "u:unknown" || b == "u:both" || b == "u:range") && !(o.nrec == 1 && o.shape == 0 && o.rbf)) continue;
+                if (b == "u:foreign") continue;
+                sp.bumps.push_back(b);
+            }
+            specs.push_back(sp);
+        }
+        for (CAmount fr : {(CAmount)1000, (CAmount)10000}) { Orig fo{1, 0, true, fr}; fo.foreign = true; specs.push_back({m, fo, "", {"u:foreign"}}); }
     }
     if (!vx::ctx().replay.empty()) {
         std::ifstream f(vx::ctx().replay);
         std::string line, want;
         while (std::getline(f, line)) if (line.rfind("coin mask ", 0) == 0) want = line;
         std::vector<Spec> one;
-        for (auto& s : specs) if (s.Str() == want) one.push_back(s);
+        for (auto& s : specs) for (auto& b : s.bumps) { Spec t = s; t.bump = b; if (t.Str() == want) { t.bumps = {b}; t.bump = ""; one.push_back(t); } }
         printf("replay: %s (%u matching case)\n", want.c_str(), (unsigned)one.size());
         specs = one;
         if (specs.empty()) return 2;
     }
 
+    const std::map<CScript, OutputType> internal = InternalScripts(world.W(), 200);
     fp::Pool pool;
     pool.isolate_jobs = true;
     pool.on_worker_start = [&](unsigned wk) { node.RepointBlocksDir(node.BlocksDir().parent_path() / ("w" + std::to_string(wk))); };
     pool.run(specs.size(), [&](uint64_t j, fp::Out& out) {
-        Job job(world, out, specs[j]);
-        out.count("cases");
+        Job job(world, out, specs[j], internal);
         try { job.Run(); }
         catch (const std::exception& e) { out.count("harness_error"); out.sample("HARNESS-ERROR " + specs[j].Str() + ": " + e.what()); }
-    }, [&](uint64_t j) { return specs[j].Str(); });
+    }, [&](uint64_t j) { return specs[j].Str() + "(setup of the original)"; });
 
     auto cnt = [&](const std::string& k) { return pool.counts.count(k) ? pool.counts[k] : 0; };
     E.evaluations = cnt("cases");
@@ -442,7 +496,7 @@ int main(int argc, char** argv)
                           "refused_u:confirmed", "refused_u:replaced", "refused_u:walletchild", "refused_u:poolchild", "refused_u:foreign", "refused_u:unknown", "refused_u:both", "refused_u:range"})
         E.set(k, cnt(k));
     for (auto& s : pool.samples) E.sample(s);
-    E.sample("bump options: auto | rate:+d (original feerate + d sat/kvB) | rate:x10 | rate:max | outputs (first recipient replaced) | chgidx (original_change_index = change) | reduce (original_change_index = a recipient) | u:* unbumpable cases");
+    E.sample("bump options: auto | rate:+d (original feerate + d sat/kvB) | rate:x10 | rate:x20 | rate:max | outputs (first recipient replaced) | chgidx (original_change_index = change) | reduce (original_change_index = a recipient) | u:* unbumpable cases");
     if (cnt("harness_error")) {
         vx::write_evidence();
         printf("HARNESS-ERROR %llu cases failed inside the harness\n", (unsigned long long)cnt("harness_error"));
